@@ -26,8 +26,19 @@ def run(ck):
     lg = P.fn(SL + 'log')
     ck.touch(lg)
     oss = [lg.nodes[i]['d'] for i in lg.walk() if lg.nodes[i]['k'] == 'VarDecl' and 'ostringstream' in lg.nodes[i].get('t', '')]
+    ck.ob('C37.sink', 'C37.sink/assembled-then-written-once', len(oss) == 1, lg.loc(),
+          'StructuredLogger::log assembles the whole record in a local ostringstream before anything reaches the log stream: an exception '
+          'while a value is being escaped cannot leave half a record (an invalid line) in the output')
     if len(oss) != 1:
-        raise AnalysisBroken('StructuredLogger::log no longer builds the record in one ostringstream')
+        ck.note('the remaining rules of C37 are stated over the local record buffer and were not evaluated')
+        return
+    # ... and the shared stream receives exactly that buffer, in one insertion
+    clog_ins = [i for i in lg.walk() if lg.nodes[i]['k'] == 'CXXOperatorCallExpr' and lg.nodes[i].get('op') == '<<' and
+                any(lg.nodes[j]['k'] == 'DeclRefExpr' and lg.nodes[j].get('q') in ('std::clog', 'std::cerr', 'std::cout') for j in lg.walk(lg.kids(i)[1])) ]
+    whole = [i for i in clog_ins if any((lg.nodes[j].get('callee') or '').endswith('::str') and any(lg.nodes[x]['k'] == 'DeclRefExpr' and lg.nodes[x].get('d') == oss[0] for x in lg.walk(j))
+                                        for j in lg.walk(lg.kids(i)[2]))]
+    ck.ob('C37.sink', 'C37.sink/single-write', len(clog_ins) == 1 and len(whole) == 1, lg.loc(clog_ins[0]) if clog_ins else lg.loc(),
+          'the log stream receives the record in exactly one insertion, of the assembled buffer (found %d insertion(s))' % len(clog_ins))
     ins = stream_insertions(lg, oss[0])
     ck.floor('C37.sink', 'stream insertions in StructuredLogger::log', len(ins), 15)
     shape = []
